@@ -93,6 +93,7 @@ structure RunInput where
   argsOk : Name → Bool := fun _ => true            -- `_get_task_args` does not raise
   calcRes : Name → CalcRes := fun _ => {}          -- delivered when the calc task is executed / up-to-date
   hasTeardown : Name → Bool := fun _ => false
+  noAct : Name → Bool := fun _ => false            -- task without actions (a group task): no start/end is observable
 
 inductive FailKind | unmet | depErr | failed | error
 deriving DecidableEq, Repr, Inhabited
@@ -102,7 +103,7 @@ inductive Ev
   | getStatus (n : Name) | skipIgn (n : Name) | skipUtd (n : Name) | execute (n : Name)
   | success (n : Name) | failure (n : Name) (k : FailKind) | teardown (n : Name) | complete
   | start (n w : Nat) | fin (n w : Nat)
-  | go (n : Name)
+  | go (n : Name) (deps : List Name)   -- internal: `select_task(n)` returned True; `deps` = every dependency known then
 deriving DecidableEq, Repr, Inhabited
 
 /-- what the dispatcher generator last did when it is not running -/
@@ -306,7 +307,8 @@ def send (inp : RunInput) (s : Sys) (processed : Option Name) (perm : List Name)
     match s.nodes p with
     | none => some { s with susp := some .crash }
     | some nd =>
-      if nd.status = .run then some { sendHead s p nd with susp := none }
+      if nd.waitSelect = true ∧ p ∉ s.waiting then some { s with susp := some .crash }   -- `waiting.remove`: KeyError
+      else if nd.status = .run then some { sendHead s p nd with susp := none }
       else if perm.Perm nd.waitingMe then
         match updateWaiting inp nd.status p (sendHead s p nd) perm with
         | some s' => some { s' with susp := none }
@@ -414,6 +416,9 @@ def failNode (inp : RunInput) (s : Sys) (n : Name) (nd : Node) (k : FailKind) (p
 
 def statusEv (nd : Node) (n : Name) : List Ev := if nd.status = .none then [Ev.getStatus n] else []
 
+/-- every dependency of node `n` known so far: task_dep and calc_dep as extended by calc results, and setup-tasks -/
+def allDeps (inp : RunInput) (n : Name) (nd : Node) : List Name := nd.dynTask ++ nd.dynCalc ++ inp.setup n
+
 /-- the effect of `select_task(node)` for each decision (the decision `assertFail` raises) -/
 def applySel (inp : RunInput) (s : Sys) (n : Name) (nd : Node) : Sel → Sys
   | .skipIgn => { setNode s n { nd with status := .ign } with events := Ev.skipIgn n :: (statusEv nd n ++ s.events) }
@@ -422,7 +427,7 @@ def applySel (inp : RunInput) (s : Sys) (n : Name) (nd : Node) : Sel → Sys
   | .utd => { setNode s n { nd with status := .utd } with events := Ev.skipUtd n :: (statusEv nd n ++ s.events) }
   | .runFirst => { setNode s n { nd with status := .run } with events := statusEv nd n ++ s.events }
   | .argsErr => failNode inp s n nd .depErr (statusEv nd n)
-  | .go => { setNode s n { nd with status := .run } with events := Ev.go n :: (statusEv nd n ++ s.events) }
+  | .go => { setNode s n { nd with status := .run } with events := Ev.go n (allDeps inp n nd) :: (statusEv nd n ++ s.events) }
   | .assertFail => s
 
 /-- `process_task_result(node, base_fail)` -/
@@ -620,7 +625,14 @@ def exitCode (s : Sys) : Nat :=
   | .none => s.final
   | _ => 3
 
-/-- the observable trace, oldest first, without the internal `go` events -/
-def trace (s : Sys) : List Ev := (s.events.filter (fun e => match e with | .go _ => false | _ => true)).reverse
+/-- events that are not observable: the internal `go`, and the start/end marks of a task that has no action -/
+def hidden (inp : RunInput) : Ev → Bool
+  | .go _ _ => true
+  | .start n _ => inp.noAct n
+  | .fin n _ => inp.noAct n
+  | _ => false
+
+/-- the observable trace, oldest first -/
+def trace (inp : RunInput) (s : Sys) : List Ev := (s.events.filter (fun e => !hidden inp e)).reverse
 
 end DoitModel.Run
